@@ -83,6 +83,8 @@ pub enum Error {
         "the size of the watch object does not fit into one of the size class (1, 2, 4, 8 bytes), try to specify a field to observe"
     )]
     WatchpointWrongSize,
+    #[error("memory location is not aligned to the size of the watch object")]
+    WatchpointMisaligned,
     #[error("watchpoint limit is reached (maximum 4 watchpoints), try to remove unused")]
     WatchpointLimitReached,
     #[error("memory location observed by another watchpoint")]
@@ -230,6 +232,7 @@ impl Error {
             Error::WatchpointNoAddress => false,
             Error::WatchpointUndefinedSize => false,
             Error::WatchpointWrongSize => false,
+            Error::WatchpointMisaligned => false,
             Error::WatchpointLimitReached => false,
             Error::WatchSubjectNotFound => false,
             Error::AddressAlreadyObserved => false,
